@@ -565,7 +565,7 @@ func (pr *prover) structuralFacts(term string, v ssa.Value) {
 				owner = y.X.Type()
 			}
 			if n := namedOf(owner); n != nil {
-				key := n.Obj().Name() + "." + fv.Name()
+				key := n.Obj().Name() + "." + fieldVarName(fv)
 				if key == "columnIndex.rowIndex" {
 					// CONTRACT columnIndex: rowIndex ≥ 0 whenever rowid is false (checked on every composite literal)
 					flag := strings.TrimSuffix(term, ".rowIndex") + ".rowid"
@@ -574,6 +574,11 @@ func (pr *prover) structuralFacts(term string, v ssa.Value) {
 							pr.g.addLE(zero, term, 0)
 						}
 					}
+				}
+				if _, listed := fieldInvariants[key]; !listed && pr.counterField(fv) {
+					// a field that is only ever set to a non-negative constant or to itself plus a non-negative
+					// constant (and starts at its zero value) is never negative
+					pr.g.addLE(zero, term, 0)
 				}
 				if inv, ok := fieldInvariants[key]; ok {
 					pr.g.addLE(zero, term, -inv.lo)
@@ -1237,6 +1242,17 @@ func trustedGenerated(p *Program, fn *ssa.Function) bool {
 	if p.PkgShort(top) != "sql" {
 		return false
 	}
+	// a helper freshly extracted from the grammar's action code (called only from the generated driver)
+	if inlinable != nil && inlinable(top) {
+		roots := contextRoots(p, top, 0)
+		all := len(roots) > 0
+		for _, r := range roots {
+			if r == top || !trustedGenerated(p, r) {
+				all = false
+			}
+		}
+		return all
+	}
 	switch top.Name() {
 	case "yyParse", "yylex1", "yyErrorMessage", "yyStatname", "yyTokname", "yyNewParser", "Lookahead":
 		return true
@@ -1310,6 +1326,59 @@ func isIntType(t types.Type) bool {
 }
 
 // suppressions: one named construct, one reason.
+var counterFieldCache = map[*types.Var]int{}
+
+// counterField: every store into field fv anywhere in the module is a constant ≥ 0 or (load of the same field) + a
+// constant ≥ 0; composite literals that do not mention it leave it 0.
+func (pr *prover) counterField(fv *types.Var) bool {
+	if b, ok := fv.Type().Underlying().(*types.Basic); !ok || b.Info()&types.IsInteger == 0 {
+		return false
+	}
+	switch counterFieldCache[fv] {
+	case 1:
+		return true
+	case 2:
+		return false
+	}
+	ok := true
+	n := 0
+	for _, fn := range pr.p.ModFuncs() {
+		for _, in := range instrs(fn) {
+			st, isSt := in.(*ssa.Store)
+			if !isSt {
+				continue
+			}
+			fa, isFA := st.Addr.(*ssa.FieldAddr)
+			if !isFA || fieldOf(fa) != fv {
+				continue
+			}
+			n++
+			if k, isC := constInt(st.Val); isC && k >= 0 {
+				continue
+			}
+			good := false
+			if bo, isBO := st.Val.(*ssa.BinOp); isBO && bo.Op == token.ADD {
+				if k, isC := constInt(bo.Y); isC && k >= 0 {
+					if ld, isLd := bo.X.(*ssa.UnOp); isLd && ld.Op == token.MUL {
+						if fa2, ok2 := ld.X.(*ssa.FieldAddr); ok2 && fieldOf(fa2) == fv {
+							good = true
+						}
+					}
+				}
+			}
+			if !good {
+				ok = false
+			}
+		}
+	}
+	if ok && n > 0 {
+		counterFieldCache[fv] = 1
+		return true
+	}
+	counterFieldCache[fv] = 2
+	return false
+}
+
 var panicSuppress = map[string]string{
 	"(*driver.Rows).Next index#2":          "database/sql passes len(dest) = len(Columns()), and a row has one value per requested column (DRV-7: the same column list is used for both)",
 	"db.init$2$1 index#1":                  "strings.ToLower of a one-rune string is never empty",
@@ -1336,6 +1405,23 @@ func runPanic(c *Ctx) {
 		if why, ok := panicSuppress[s.Key]; ok {
 			c.Pass(s.Key, s.In.Pos(), "suppressed: %s", why)
 			continue
+		}
+		// an explicit panic moved into a freshly extracted helper keeps the argument given for its caller's panic
+		if _, isPanic := s.In.(*ssa.Panic); isPanic && inlinable != nil && inlinable(s.Fn) {
+			roots := contextRoots(p, s.Fn, 0)
+			why := ""
+			for _, r := range roots {
+				w, ok := panicSuppress[p.FnKey(r)+" panic#1"]
+				if !ok || r == s.Fn {
+					why = ""
+					break
+				}
+				why = w
+			}
+			if why != "" {
+				c.Pass(s.Key, s.In.Pos(), "suppressed (moved out of %s): %s", p.FnKey(roots[0]), why)
+				continue
+			}
 		}
 		status, why := proveSite(p, t, s)
 		switch status {
@@ -1367,30 +1453,79 @@ func proveSite(p *Program, t *Termer, s panicSite) (string, string) {
 			return "trivial", "constant size"
 		}
 	}
-	fn := s.Fn
-	paths, ok := EnumLits(fn.Blocks[0], 0, TabOpts{Termer: t, Limit: 300000,
-		Stop: func(in ssa.Instruction, ps *pathState) bool { return in == s.In }})
-	if !ok {
-		return "undecided", "too many paths to this site"
-	}
+	// a site inside a freshly extracted helper is proved in the context of the helper's callers (the path enumeration
+	// walks the helper in place), exactly as it was proved before the extraction
 	n := 0
-	for _, lp := range paths {
-		if lp.Stop == nil {
-			continue
+	roots := contextRoots(p, s.Fn, 0)
+	for _, fn := range roots {
+		if fn != s.Fn && len(fn.Blocks) > 120 {
+			// a caller too large to enumerate through (the generated parser): prove the site in the helper alone
+			roots = []*ssa.Function{s.Fn}
+			break
 		}
-		n++
-		pr := newProver(p, t, lp)
-		if pr.g.inconsistent() {
-			continue // infeasible path
+	}
+	for _, fn := range roots {
+		limit := 300000
+		if fn != s.Fn {
+			limit = 60000
 		}
-		if ok, why := pr.discharge(s); !ok {
-			return "open", fmt.Sprintf("%s; on path [%s]", why, pathDesc(lp))
+		paths, ok := EnumLits(fn.Blocks[0], 0, TabOpts{Termer: t, Limit: limit,
+			Stop: func(in ssa.Instruction, ps *pathState) bool { return in == s.In }})
+		if !ok && fn != s.Fn {
+			paths, ok = EnumLits(s.Fn.Blocks[0], 0, TabOpts{Termer: t, Limit: 300000,
+				Stop: func(in ssa.Instruction, ps *pathState) bool { return in == s.In }})
+		}
+		if !ok {
+			return "undecided", "too many paths to this site"
+		}
+		for _, lp := range paths {
+			if lp.Stop == nil {
+				continue
+			}
+			n++
+			pr := newProver(p, t, lp)
+			if pr.g.inconsistent() {
+				continue // infeasible path
+			}
+			if ok, why := pr.discharge(s); !ok {
+				return "open", fmt.Sprintf("%s; on path [%s]", why, pathDesc(lp))
+			}
 		}
 	}
 	if n == 0 {
 		return "trivial", "unreachable within its function"
 	}
 	return "proved", fmt.Sprintf("discharged on all %d paths reaching it", n)
+}
+
+// contextRoots: fn itself, or — when fn is a freshly extracted helper — the confirmed functions that call it
+// (through further fresh helpers).
+func contextRoots(p *Program, fn *ssa.Function, depth int) []*ssa.Function {
+	if inlinable == nil || !inlinable(fn) || depth > maxInlineDepth {
+		return []*ssa.Function{fn}
+	}
+	var out []*ssa.Function
+	seen := map[*ssa.Function]bool{}
+	for _, g := range p.ModFuncs() {
+		if g == fn || g.Synthetic != "" {
+			continue // compiler-made wrappers (pointer-receiver thunks, bound methods) are not callers of interest
+		}
+		for _, cs := range callsIn(g) {
+			if _, isCall := cs.(*ssa.Call); !isCall || cs.Common().StaticCallee() != fn {
+				continue
+			}
+			for _, r := range contextRoots(p, g, depth+1) {
+				if !seen[r] {
+					seen[r] = true
+					out = append(out, r)
+				}
+			}
+		}
+	}
+	if len(out) == 0 {
+		return []*ssa.Function{fn}
+	}
+	return out
 }
 
 func trivialIndex(x, idx ssa.Value) (bool, string) {
